@@ -314,19 +314,45 @@ def _shift_spec(spec, dx, dy):
     return out
 
 
+def _scale_spec_about_start(spec, m):
+    s0 = spec[1]
+    out = [spec[0]]
+    for i, v in enumerate(spec[1:], 1):
+        if spec[0] == 'A' and i == 2:
+            out.append([v[0] * m, v[1] * m])
+        elif spec[0] == 'A' and i in (3, 4, 5):
+            out.append(v)
+        else:
+            out.append([s0[0] + m * (v[0] - s0[0]), s0[1] + m * (v[1] - s0[1])])
+    return out
+
+
 @st.composite
 def chain_specs(draw, min_size=1, max_size=6, scale=None, arcs=True, closed=None,
-                classes=None, break_prob=0):
+                classes=None, break_prob=0, unequal=False, zero_len_prob=0, kinds=None):
     """A list of segment specs chained end-to-start exactly (continuous), by
     translating each generated segment so it starts where the previous ended
     and then forcing exact equality of the joint.  With break_prob>0 some
-    joints are left discontinuous."""
+    joints are left discontinuous; unequal=True gives segments very different
+    sizes (factor 1e-6..10); zero_len_prob inserts zero-length segments at
+    non-leading positions."""
     sc = scale if scale is not None else draw(scales)
     n = draw(st.integers(min_size, max_size))
     specs = []
     cur = draw(point(sc))
     for i in range(n):
+        if i > 0 and zero_len_prob and draw(st.integers(0, 99)) < zero_len_prob:
+            k = draw(st.sampled_from('LQC'))
+            specs.append([k] + [list(cur) for _ in range({'L': 2, 'Q': 3, 'C': 4}[k])])
+            continue
         s = draw(any_seg_spec(scale_strategy=st.just(sc), arcs=arcs, classes=classes))
+        if kinds is not None and s[0] not in kinds:
+            s = draw(bezier_spec(deg_strategy=st.sampled_from([{'L': 1, 'Q': 2, 'C': 3}[k] for k in kinds if k in 'LQC']),
+                                 scale_strategy=st.just(sc), classes=classes))['spec']
+        if unequal:
+            m = draw(st.sampled_from([1.0, 1.0, 1.0, 1e-6, 1e-3, 0.1, 10.0]))
+            if m != 1.0:
+                s = _scale_spec_about_start(s, m)
         if break_prob and i > 0 and draw(st.integers(0, 99)) < break_prob:
             cur = draw(point(sc))
             if cur == spec_end(specs[-1]):
@@ -341,13 +367,21 @@ def chain_specs(draw, min_size=1, max_size=6, scale=None, arcs=True, closed=None
         specs.append(s)
         cur = list(spec_end(s))
     want_closed = draw(st.booleans()) if closed is None else closed
-    if want_closed and n >= 2:
+    if want_closed and len(specs) >= 2 and not break_prob:
         first = spec_start(specs[0])
         last = specs[-1]
-        if last[0] != 'A' or first != last[1]:
-            if not (last[0] == 'L' and last[1] == first):
-                last[-1] = list(first)
-        if last[0] == 'A' and last[1] == last[6]:
-            specs.append(['L', list(last[6]), [first[0] + sc, first[1]]])
-            specs.append(['L', [first[0] + sc, first[1]], list(first)])
+        if last[1] != first and not (last[0] in 'LA' and last[1] == first):
+            last[-1] = list(first)
+        else:
+            mid = [first[0] + sc, first[1] + sc]
+            last[-1] = mid
+            specs.append(['L', list(mid), list(first)])
     return specs
+
+
+def path_is_continuous(specs):
+    return all(a[-1] == b[1] for a, b in zip(specs, specs[1:]))
+
+
+def path_is_closed(specs):
+    return path_is_continuous(specs) and specs[0][1] == specs[-1][-1]
